@@ -330,7 +330,7 @@ class World:
     def outcome(self, trace):
         out = Outcome()
         out.nontrivial = self.exc_exits > 0 and self.forwards_after_exc > 0
-        out.fingerprint = [(s["op"], s.get("exc"), s.get("where"), s.get("model"), s.get("fn")) for s in trace]
+        out.fingerprint = [(s["op"], s.get("exc"), s.get("where"), s.get("n"), s.get("streamline"), s.get("model"), s.get("fn")) for s in trace]
         out.klass = [f"op-{k}" for k in set(self.kinds)] + [f"exc-exits{min(self.exc_exits, 3)}"]
         return out
 
@@ -438,4 +438,110 @@ def run_faults(ctx):
                     exhaustive_name=f"exception kinds (3 Exception + 3 BaseException) x fault at every module position of chains 1..{maxn} or in the with body x nesting 1-2 x streamline x victim model")
 
 
-SUBCHECKS = {"faults": {"run": run_faults, "execute": exec_history}, "machine": {"run": run_machine, "execute": exec_history}}
+# ----------------------------------------------------------------------------- library calls never modify what they read
+
+from checks import common_rows as R  # noqa: E402
+from vlib.core import drive  # noqa: E402
+from optimum.quanto import AbsmaxOptimizer, MaxOptimizer  # noqa: E402
+from optimum.quanto.tensor.quantizers import AffineQuantizer, SymmetricQuantizer  # noqa: E402
+
+PURE_FNS = ["quantize_weight", "quantize_weight", "quantize_activation", "symmetric", "affine", "absmax_scale", "optimizer", "dequantize", "requantize"]
+
+
+@st.composite
+def purity_cases(draw):
+    c = draw(R.row_tensor_cases(qtypes=tuple(sorted(O.QTALL)), min_rank=1))
+    c["fn"] = draw(st.sampled_from(PURE_FNS))
+    c["own_group"] = draw(st.integers(0, 3)) == 0  # group size == per-axis element count (one group per index: views instead of copies)
+    c["unit_dim"] = draw(st.integers(0, 5)) == 0  # a dimension of size one at the axis or at the other end
+    return c
+
+
+def exec_purity(case):
+    """Every public quantization entry point, on every configuration, leaves the float tensor it reads bitwise unchanged
+    (values and version counter), and so do dequantize() and re-quantization for the quantized tensor they read; two
+    evaluations on the same input are bit-identical."""
+    out = Outcome()
+    case = dict(case)
+    shape = list(case["shape"])
+    if case["unit_dim"] and len(shape) >= 2:
+        shape[0 if case["seed"] % 2 else -1] = 1
+        case["shape"] = shape
+        case["group_size"] = None
+    x, gid, ng, names = R.build(case)
+    qtype = O.QTALL[case["qtype"]]
+    axis, gs = case["axis"], case["group_size"]
+    if len(shape) >= 2 and qtype.bits < 8 and case["own_group"]:
+        gs = x.numel() // shape[axis]
+    if qtype.bits == 8:
+        gs = None
+    fn = case["fn"]
+    keep, ver = x.clone(), x._version
+    base_keep = x._base.clone() if x._base is not None else None
+    tag = f"purity/{fn}"
+    out.fingerprint = [fn, case["qtype"], case["dtype"], shape, axis, gs, case.get("mem", ["contig"])[0]]
+    out.klass = [fn, case["qtype"], f"axis{axis}", "grouped" if gs else "ungrouped", "layout-" + case.get("mem", ["contig"])[0], "own-group" if gs and len(shape) >= 2 and gs == x.numel() // shape[axis] else "other"]
+    out.nontrivial = gs is not None or case.get("mem", ["contig"])[0] != "contig" or axis == -1
+
+    def call():
+        if fn == "quantize_weight":
+            return quantize_weight(x, qtype, axis, gs)
+        if fn == "quantize_activation":
+            q8 = qtype if qtype.bits == 8 else O.QT8["qint8"]
+            return quantize_activation(x, q8, torch.tensor(0.05, dtype=x.dtype))
+        if fn == "absmax_scale":
+            return absmax_scale(x, qtype if qtype.bits == 8 else O.QT8["qint8"], [None, 0, -1][case["seed"] % 3])
+        if fn == "optimizer":
+            if qtype.bits == 8:
+                return AbsmaxOptimizer()(x, qtype.bits, axis)
+            return MaxOptimizer()(x, qtype.bits, axis, gs)
+        if fn == "symmetric":
+            q8 = qtype if qtype.bits == 8 else O.QT8["qint8"]
+            sc = AbsmaxOptimizer()(x, 8, axis)
+            return SymmetricQuantizer.apply(x, q8, axis, sc)
+        if fn == "affine":
+            ql = qtype if qtype.bits < 8 else O.QTALL["qint4"]
+            g2 = gs if qtype.bits < 8 else None
+            sc, zp = MaxOptimizer()(x, ql.bits, axis, g2)
+            return AffineQuantizer.apply(x, ql, axis, g2, sc, zp)
+        q = quantize_weight(x, qtype, axis, gs)
+        if fn == "dequantize":
+            return q.dequantize()
+        d = q.dequantize()
+        return quantize_weight(d, qtype, axis, gs)
+
+    r = cut(call)
+    if isinstance(r, Raised):
+        if r.type != "ValueError":
+            out.fail(f"{tag}/raises:{r.type}", r.text)
+        out.nontrivial = False
+    changed = not torch.equal(x.view(torch.int16 if x.element_size() == 2 else torch.int32) if x.is_contiguous() else x.nan_to_num(), keep.view(torch.int16 if keep.element_size() == 2 else torch.int32) if x.is_contiguous() else keep.nan_to_num())
+    if changed or x._version != ver:
+        which = "own-group" if gs and len(shape) >= 2 and gs == x.numel() // shape[axis] else ("unit-dim" if 1 in shape else case.get("mem", ["contig"])[0])
+        out.fail(f"{tag}/modified-input/{'values' if changed else 'version-counter'}", f"{fn}({case['qtype']}, axis {axis}, group {gs}) on a {which} tensor {shape} modified the float tensor it was given")
+    if base_keep is not None and not torch.equal(x._base.nan_to_num(), base_keep.nan_to_num()):
+        out.fail(f"{tag}/modified-input/base-storage", f"{fn} wrote into the storage the source is a view of")
+    if not isinstance(r, Raised) and not out.failures:
+        r2 = cut(call)
+        same = True
+        if isinstance(r2, Raised):
+            same = False
+        else:
+            a = r if isinstance(r, tuple) else (r,)
+            b = r2 if isinstance(r2, tuple) else (r2,)
+            for u, v in zip(a, b):
+                du = u.dequantize() if isinstance(u, QTensor) else u
+                dv = v.dequantize() if isinstance(v, QTensor) else v
+                if not torch.equal(du.nan_to_num(), dv.nan_to_num()):
+                    same = False
+        if not same:
+            out.fail(f"{tag}/second-evaluation-differs", f"{fn}({case['qtype']}, axis {axis}, group {gs}) gives another result the second time on the same input")
+    return out
+
+
+def run_purity(ctx):
+    drive(ctx, purity_cases(), exec_purity, max(1, int(ctx.params["n"] * ctx.params.get("scale", 1))))
+
+
+SUBCHECKS = {"faults": {"run": run_faults, "execute": exec_history}, "machine": {"run": run_machine, "execute": exec_history},
+             "purity": {"run": run_purity, "execute": exec_purity}}
